@@ -1018,3 +1018,30 @@ Proof.
   cbn [step]. rewrite map_slot_id; [destruct s; reflexivity|].
   intros id sl Hin. apply synced_restart_id. eapply Hs; exact Hin.
 Qed.
+
+(** * preimages *)
+(** with htlcs_fulfilled writing the node entry, what the signer knows - in memory and in the
+    store - is exactly what it was handed, after any history, restarts included; so every
+    commitment transaction is classified with all the preimages that were handed over *)
+Definition pinv (s : pnode) : Prop := known s = given s /\ known_disk s = known s.
+
+Lemma pstep_pinv p s o s' out : pinv s -> pstep true p s o = Ok (s', out) -> pinv s'.
+Proof.
+  intros [H1 H2] H. destruct o; cbn [pstep] in H.
+  - apply bind_ok in H. destruct H as [[n' out'] [E H]]. inversion H; subst. clear H. unfold pinv. cbn [known known_disk given].
+    assert (Hk : match o with Restart => known_disk s | _ => known s end = known s) by (destruct o; auto).
+    rewrite Hk. split; [exact H1|]. destruct (writes_node_entry (pn s) o); [reflexivity | exact H2].
+  - apply bind_ok in H. destruct H as [[n' out'] [E H]]. inversion H; subst. split; assumption.
+  - inversion H; subst. unfold pinv. cbn [known known_disk given]. rewrite H1. auto.
+  - inversion H; subst. unfold pinv. cbn [known known_disk given]. auto.
+Qed.
+
+Theorem preimages_durable p h ops s :
+  prun true p (init_pnode h) ops = Ok s -> known s = given s /\ known_disk s = known s.
+Proof.
+  assert (G : forall ops s0 s1, pinv s0 -> prun true p s0 ops = Ok s1 -> pinv s1).
+  { induction ops0 as [|o r IH]; intros s0 s1 Hi Hr; cbn [prun] in Hr.
+    - inversion Hr; subst. exact Hi.
+    - apply bind_ok in Hr. destruct Hr as [[s2 out] [E Hr]]. eapply IH; [eapply pstep_pinv; eassumption | exact Hr]. }
+  intros Hr. apply (G ops (init_pnode h) s); [split; reflexivity | exact Hr].
+Qed.
